@@ -1,46 +1,36 @@
 (* C10 property theorems: statements only, each closed by `exact`.
-   `current` is the code as it is, `repaired` the code after proposed_fixes/C10-*.diff. *)
+   `current` = the code as it is now (repairs f11f464, 127fbf4 applied); `legacy` = the code before
+   those repairs (two refutations kept as the record of the repaired defects); `repaired` = the code
+   with the proposed escaping of string constants. *)
 From Coq Require Import ZArith List Bool String Permutation Sorted.
-From PAFC10 Require Import Model Proofs Proofs2 Proofs3 Proofs4 Witness.
+From PAFC10 Require Import Model Proofs Proofs2 Proofs3 Proofs4 Proofs5 Witness.
 Import ListNotations.
 
-(* FULL STATEMENT (all predicates, all well-formed databases): the compiled query holds of a
-   fit exactly when the predicate is true on the stored objects -- REFUTED for the current code *)
+(* ===== selection ===== *)
+
+(* FULL STATEMENT (all predicates, all well-formed databases): the compiled query holds of a fit
+   exactly when the predicate is true on the stored objects -- REFUTED for the current code
+   (Or-merge over different tables; further witnesses in Witness.v: negated info test, negated test on
+   a NULL column, LIKE semantics, unescaped quote, shadowed path segment) *)
 Theorem C10_exact_refuted :
   exists p q f, compile current p = Ok q /\ wf_pred p = true /\ wf_fit f = true /\ sem q f <> eval p f.
 Proof. exact exact_refuted. Qed.
 
-(* ... and proved for every predicate tree and every database with unique child names under the
-   explicit guard `safe` (no inverted NamedQuery in a name merge, Or-merges over equal tables,
-   no negated info test, no negated attribute test) *)
+(* ... proved for every predicate tree and every fit with unique child names under the explicit guard:
+   Or-merges over equal tables, no negated info test, no negated attribute test, and contains / in_
+   tests on strings on which LIKE is plain substring search *)
 Theorem C10_exact_partial : forall p q f,
-  compile current p = Ok q -> safe current p = true -> wf_fit f = true -> sem q f = eval p f.
-Proof. exact (fun p q f Hq Hs W => compile_exact current true true (or_introl eq_refl) p q f Hq Hs W (or_introl eq_refl)). Qed.
+  compile current p = Ok q -> safe_with current false true true true p = true -> wf_fit f = true ->
+  forallb (acond_plain f) (attr_tests p) = true ->
+  sem q f = eval p f.
+Proof. exact (fun p q f Hq Hs W Hp => compile_exact current false true (or_intror eq_refl) p q f Hq Hs W (or_introl eq_refl) Hp). Qed.
 
 (* negated attribute tests are exact too when no attribute column holds NULL *)
 Theorem C10_exact_partial_no_null : forall p q f,
-  compile current p = Ok q -> safe_with current true true true false p = true -> wf_fit f = true ->
-  attrs_defined f = true -> sem q f = eval p f.
-Proof. exact (fun p q f Hq Hs W D => compile_exact current true false (or_introl eq_refl) p q f Hq Hs W (or_intror D)). Qed.
-
-(* result lists: exactly the satisfying fits, in database order, each once *)
-Theorem C10_select_partial : forall p q db,
-  compile current p = Ok q -> safe current p = true -> forallb wf_fit db = true ->
-  select q db = filter (eval p) db.
-Proof. exact (fun p q db Hq Hs W => select_exact current true true (or_introl eq_refl) p q db Hq Hs W (or_introl eq_refl)). Qed.
-
-Theorem C10_each_once : forall q db, NoDup (map fid db) -> NoDup (map fid (select q db)).
-Proof. exact select_nodup. Qed.
-
-(* after the repair of _match_conditions the guard no longer mentions inverted queries *)
-Theorem C10_exact_repaired_partial : forall p q f,
-  compile repaired p = Ok q -> safe_with repaired false true true true p = true -> wf_fit f = true ->
+  compile current p = Ok q -> safe_with current false true true false p = true -> wf_fit f = true ->
+  attrs_defined f = true -> forallb (acond_plain f) (attr_tests p) = true ->
   sem q f = eval p f.
-Proof. exact (fun p q f Hq Hs W => compile_exact repaired false true (or_intror eq_refl) p q f Hq Hs W (or_introl eq_refl)). Qed.
-
-Theorem C10_exact_repaired_refuted :
-  exists p q f, compile repaired p = Ok q /\ wf_pred p = true /\ wf_fit f = true /\ sem q f <> eval p f.
-Proof. exact exact_repaired_still_refuted. Qed.
+Proof. exact (fun p q f Hq Hs W D Hp => compile_exact current false false (or_intror eq_refl) p q f Hq Hs W (or_intror D) Hp). Qed.
 
 (* the junction constructor itself (flatten, group by name, de-duplicate, collapse singletons)
    preserves meaning at every well-formed object, for every list of conditions *)
@@ -50,6 +40,47 @@ Theorem C10_junction_partial : forall f vr ci,
     mk_junction vr fuel k conds = Ok q -> merge_ok vr ci true fuel k conds = true ->
     forall o, wf_obj o = true -> holds f q o = jsem k (fun m => holds f m o) conds.
 Proof. exact mk_junction_sem. Qed.
+
+(* SQLite LIKE is exact substring search when neither string has a wildcard or an upper-case letter *)
+Theorem C10_like_plain : forall p s, plain p = true -> plain s = true -> like_contains p s = substrb p s.
+Proof. exact like_contains_plain. Qed.
+
+(* ===== end to end: select, top-level filter, order, slices ===== *)
+
+Theorem C10_pipeline_partial : forall p q db top_only keys slices,
+  compile current p = Ok q -> guard_db p db ->
+  run_slices current top_only (ordered keys (select q db)) slices =
+  spec_slices top_only (ordered keys (filter (eval p) db)) slices.
+Proof. exact pipeline_exact. Qed.
+
+(* the aggregator state machine on query, order_by*, slice* (no step) is that pipeline *)
+Theorem C10_ops_canonical_partial : forall top_only db p q keys slices,
+  has_shadow p = false -> pred_quote p = false -> compile current p = Ok q -> guard_db p db ->
+  run_ops current top_only db (OQuery p :: order_ops keys ++ slice_ops slices) =
+  Ok (spec_slices top_only (ordered keys (filter (eval p) db)) slices, keys).
+Proof. exact ops_canonical_exact. Qed.
+
+(* FULL STATEMENT for arbitrary op sequences (Python list semantics) -- REFUTED: a slice is
+   forgotten by a later order_by / query, and the step of a slice is ignored *)
+Theorem C10_ops_refuted :
+  exists db ops, forall r, run_ops current false db ops = Ok r -> map fid (fst r) <> map fid (spec_ops false db ops).
+Proof. exact ops_refuted'. Qed.
+
+Theorem C10_each_once : forall q db, NoDup (map fid db) -> NoDup (map fid (select q db)).
+Proof. exact select_nodup. Qed.
+
+(* ordering: a permutation of the selection, adjacent fits in key order (first key first) *)
+Theorem C10_order : forall keys l,
+  Permutation l (ordered keys l) /\
+  (keys <> [] -> Sorted (fun a b => lex_le keys a b = true) (ordered keys l)).
+Proof. exact ordered_spec. Qed.
+
+(* every chain of [a:b] slices, with or without child fits, equals Python list slicing *)
+Theorem C10_slice_exact : forall top_only L slices,
+  run_slices current top_only L slices = spec_slices top_only L slices.
+Proof. exact slices_current. Qed.
+
+(* ===== which predicates the API accepts ===== *)
 
 (* FULL STATEMENT: every well-formed predicate compiles -- REFUTED (~ of a junction, three tables) *)
 Theorem C10_total_refuted :
@@ -65,33 +96,18 @@ Proof. exact compile_junction_free. Qed.
 Theorem C10_no_fuel : forall vr p, compile vr p <> Err EFuel.
 Proof. exact compile_no_fuel. Qed.
 
-(* ordering: a permutation of the selection, adjacent fits in key order (first key first) *)
-Theorem C10_order : forall keys l,
-  Permutation l (ordered keys l) /\
-  (keys <> [] -> Sorted (fun a b => lex_le keys a b = true) (ordered keys l)).
-Proof. exact ordered_spec. Qed.
+(* ===== record of the repaired defects (statements about the code before f11f464 / 127fbf4) ===== *)
 
-(* FULL STATEMENT: aggregator[s1][s2]... equals Python slicing of the fits -- REFUTED *)
-Theorem C10_slice_refuted :
-  exists L sl, run_slices current false L [sl] <> spec_slices false L [sl].
-Proof. exact slice_refuted. Qed.
+Theorem C10_legacy_exact_refuted :
+  exists p q f, compile legacy p = Ok q /\ wf_pred p = true /\ wf_fit f = true /\ sem q f <> eval p f.
+Proof. exact legacy_exact_refuted. Qed.
 
-Theorem C10_slice_children_refuted :
-  exists L sl, open_slice sl /\ run_slices current true L [sl] <> spec_slices true L [sl].
-Proof. exact slice_children_refuted'. Qed.
-
-(* ... proved for chains of [start:] slices with start >= 0 when child fits are not filtered *)
-Theorem C10_slice_partial : forall (L : list fit) slices,
-  Forall open_slice slices -> run_slices current false L slices = spec_slices false L slices.
-Proof. exact slices_current_open. Qed.
-
-(* ... and proved in full for the repaired __getitem__ / _fits_for_query *)
-Theorem C10_slice_repaired : forall top_only L slices,
-  run_slices repaired top_only L slices = spec_slices top_only L slices.
-Proof. exact slices_repaired. Qed.
+Theorem C10_legacy_slice_refuted :
+  exists L sl, run_slices legacy false L [sl] <> spec_slices false L [sl].
+Proof. exact legacy_slice_refuted. Qed.
 
 Print Assumptions C10_exact_partial.
-Print Assumptions C10_exact_refuted.
+Print Assumptions C10_pipeline_partial.
+Print Assumptions C10_ops_canonical_partial.
 Print Assumptions C10_junction_partial.
-Print Assumptions C10_slice_repaired.
-Print Assumptions C10_order.
+Print Assumptions C10_slice_exact.
